@@ -151,6 +151,9 @@ impl Run {
             }
         }
         for f in rep.found {
+            if std::env::var("VERIF_DEBUG").is_ok() {
+                eprintln!("   found [{}x] {} :: {} :: {}", f.count, f.sig, f.detail, to_val(&f.path));
+            }
             self.found.push(FoundRec {
                 exploration: name.to_string(),
                 params: params.clone(),
